@@ -37,7 +37,20 @@ func VerifHarness_CoinRegistry_Deliver() {
 		tx = verifTx(nonce0+1, verifGasPrice(), 0, TypeEditCoinOwner, EditCoinOwnerData{Symbol: sym, NewOwner: u.B})
 	}
 	existed := u.st.Coins.ExistsBySymbol(sym)
-	resp, _, after := verifDeliverChecked(u, tx, verifSignBy(tx, signer), sender, nonce0)
+	resp, before, after := verifDeliverChecked(u, tx, verifSignBy(tx, signer), sender, nonce0)
+	if resp.Code == 0 {
+		// C27: the type's own price (times the gas price) reaches the reward pool;
+		// the ticker fee of a creation is burned to the zero address instead
+		p := u.st.Commission.GetCommissions()
+		typePrice := []*big.Int{p.CreateCoin, p.CreateToken, p.RecreateCoin, p.RecreateToken, p.EditTickerOwner}[kind]
+		gp := big.NewInt(int64(tx.GasPrice))
+		fee := new(big.Int).Sub(after.get("rewardpool"), before.get("rewardpool"))
+		verifAssert("C27:fee=gasprice*typeprice", fee.Cmp(new(big.Int).Mul(gp, typePrice)) == 0)
+		if kind <= 1 {
+			burned := new(big.Int).Sub(after.get("bal.zero.0"), before.get("bal.zero.0"))
+			verifAssert("C27:ticker-fee-burned-to-the-zero-address", burned.Cmp(new(big.Int).Mul(gp, p.CreateTicker3)) == 0)
+		}
+	}
 	count1 := u.st.App.GetCoinsCount()
 	if resp.Code != 0 {
 		verifAssert("C22:rejected-transaction-uses-no-coin-id", count1 == count0 && !u.st.Coins.Exists(newID))
